@@ -202,8 +202,9 @@ pub fn oracle(tier: &str, seed: u64) -> (u64, Vec<Finding>) {
         let lam = |r: &mut Rng, i: u64| -> f64 { match i % 8 { 0 => 0.0, 1 => r.uniform(-1e-8, 1e-8), 2 => (r.uniform(-40.0, -18.0)).exp() * if r.coin(0.5) { 1.0 } else { -1.0 }, 3 => *r.pick(&[1.0, 2.0, -1.0, 0.5, -0.5, 3.0]), _ => r.uniform(-5.0, 5.0) } };
         let n = if thorough { 400000 } else { 40000 };
         for i in 0..n {
-            let x = (r.uniform((1e-6f64).ln(), (1e6f64).ln())).exp();
-            let l = lam(&mut r, i);
+            // one argument in ten sits next to 1 (where x^lambda - 1 cancels), on either side, at every distance from 1e-3 down to one ulp
+            let x = if i % 10 == 7 { 1.0 + (if r.coin(0.5) { 1.0 } else { -1.0 }) * (10.0f64).powf(-r.uniform(3.0, 15.7)) } else { (r.uniform((1e-6f64).ln(), (1e6f64).ln())).exp() };
+            let l = if i % 10 == 7 && r.coin(0.7) { *r.pick(&[-5.0, -4.0, -3.0, -2.0, -1.0, 1.0, 2.0, 3.0, 4.0, 5.0]) } else { lam(&mut r, i) };
             tried += 1;
             crumbf!("x={:e} lambda={:e}", x, l);
             match catch(|| boxcox(x, l)) {
